@@ -11,6 +11,9 @@ import (
 	"go.yaml.in/yaml/v4"
 )
 
+// yamlBreaks are the characters YAML treats as line breaks: LF, CR, NEL, LS and PS.
+const yamlBreaks = "\r\n\u0085\u2028\u2029"
+
 // YAMLString returns a scalar YAML node for an arbitrary string.
 //
 // The YAML encoder writes multi-line strings as block scalars, but it gets the indentation wrong
@@ -22,8 +25,8 @@ func YAMLString(s string) *yaml.Node {
 		Value: s,
 	}
 
-	if strings.ContainsAny(s, "\r\n") {
-		if first := strings.TrimLeft(s, "\r\n"); first != "" && (first[0] == ' ' || first[0] == '\t') {
+	if strings.ContainsAny(s, yamlBreaks) {
+		if first := strings.TrimLeft(s, yamlBreaks); first != "" && (first[0] == ' ' || first[0] == '\t') {
 			node.Style = yaml.DoubleQuotedStyle
 		}
 	}
